@@ -44,6 +44,10 @@ class Prop:
                          {'kind': 'absent', 'class': cname, 'field': name})
 
     def run(self, ctx):
+        # (decoding is a function of the payload also while another thread of the program decodes something else:
+        # the worker processes evaluate the cases next to a busy second thread)
+        import os
+        os.environ['VERIF_NOISE'] = '1'
         rng = ctx.rng('prefix')
         reps = 1 if ctx.tier == 'quick' else 12
         lines, meta = [], []
